@@ -48,6 +48,7 @@ DEAD_CALLS = [("GetOutputStringLineCount", "0"), ("RunString", BADINST), ("GetCo
 def generate(rng, tier, index):
     nclients = rng.range(2, 4)
     pool = W.FAST if rng.chance(70) else W.MEDIUM
+    pool = pool + W.C06_ONLY * 2          # long-field workload: drawn about as often as two ordinary ones
     clients = []
     for c in range(nclients):
         r = rng.fork("c%d" % c)
@@ -75,6 +76,15 @@ def generate(rng, tier, index):
     # first use in a process: one plan in four runs its threads in a newly started process, so that whatever the library sets up on
     # first use (tables, caches, function-local statics) is set up while the other threads are already running
     plan["fresh_process"] = rng.chance(25)
+    # storm: every thread runs the same input at the same time (dense preemption), so that two threads are inside the same rarely
+    # used code - and whatever static scratch state it may have - together
+    if rng.chance(20):
+        name = rng.choice(sorted(W.FAST) + W.C06_ONLY * 4)
+        for c in clients:
+            for lc in c["lifecycles"]:
+                lc["inputs"] = [name] * len(lc["inputs"])
+        plan["preempt"] = rng.choice([25, 40, 60])
+        plan["storm"] = name
     for c in clients:
         for lc in c["lifecycles"]:
             lc["badload"] = rng.range(1, 3) if rng.chance(12) else 0
@@ -94,6 +104,8 @@ def compile_client(prog, ci, plan):
         marks.append(mark)
 
     emit(["clock", "1000000", str(prog["clock_inc"]), "40" if prog["clock_jump"] else "0", str(prog["clock_jump"])])
+    if plan.get("storm"):
+        emit(["gate", "1"])
     cross_out = [x for x in plan.get("cross", []) if x["from"] == ci]
     cross_in = [x for x in plan.get("cross", []) if x["to"] == ci]
     slot_of_lifecycle = {}
@@ -120,10 +132,6 @@ def compile_client(prog, ci, plan):
             emit(call(b, t, "SetLogStringOn", 1), "ret")
         if lc["outfile"]:
             emit(call(b, t, "SetOutputFileOn", 1), "ret")
-        for n in (1, 2):
-            emit(call(b, t, "SetCurrentSelectedOutputUserNumber", n), "ret")
-            emit(call(b, t, "SetSelectedOutputStringOn", 1), "ret")
-        emit(call(b, t, "SetCurrentSelectedOutputUserNumber", 1), "ret")
         dbp = W.db(lc["inputs"][0])
         if lc.get("badload"):
             # a load that fails (legal use) before the real one: a text without master species reaches the paths for empty tables
@@ -133,6 +141,13 @@ def compile_client(prog, ci, plan):
             emit(call(b, t, "LoadDatabaseString", read_text(dbp)), "ret0")
         else:
             emit(call(b, t, "LoadDatabase", dbp), "ret0")
+        # the per-user-number switches are reset by a load: they are set after it (set before it, no selected-output string is captured)
+        for n in (1, 2):
+            emit(call(b, t, "SetCurrentSelectedOutputUserNumber", n), "ret")
+            emit(call(b, t, "SetSelectedOutputStringOn", 1), "ret")
+            if lc["outfile"]:
+                emit(call(b, t, "SetSelectedOutputFileOn", 1), "ret")
+        emit(call(b, t, "SetCurrentSelectedOutputUserNumber", 1), "ret")
         for k, name in enumerate(lc["inputs"]):
             for o in W.inc_ops(name):
                 emit(o)
@@ -174,6 +189,8 @@ def compile_client(prog, ci, plan):
             emit(call("c", "f%d" % x["flag"], "DestroyRaw"), ("dead", BADINST))
     for x in cross_out:
         x.pop("_sent", None)
+    if plan.get("storm"):
+        emit(["gate", "read"], "gates")
     return ops, marks
 
 
@@ -189,7 +206,7 @@ def observations(ops, marks, results):
     out = []
     for o in results:
         m = marks[o.idx]
-        if m is None or (isinstance(m, tuple) and m[0] == "create"):
+        if m is None or m == "gates" or (isinstance(m, tuple) and m[0] == "create"):
             continue
         out.append((o.idx, norm_fields(o.f)))
     return out
@@ -212,6 +229,8 @@ def check_plan(ctx, plan):
     rep = Report()
     compiled = [compile_client(p, ci, plan) for ci, p in enumerate(plan["clients"])]
     clients = [c[0] for c in compiled]
+    if plan.get("storm"):
+        rep.count("storm_plans")
     if plan.get("fresh_process"):
         if "tsan" in ctx.ex:
             ctx.ex.pop("tsan").stop()
@@ -254,6 +273,9 @@ def check_plan(ctx, plan):
                 rep.count("dead_id_calls")
                 if o.f[0] != m[1]:
                     rep.viol("dead_id", "dead_id:" + ops[o.idx][3], "client %d: %s with a dead id returned %r, documented %r" % (ci, ops[o.idx][3], o.f[0][:80], m[1]))
+            elif m == "gates":
+                rep.count("gates_passed", int(o.f[0]))
+                rep.count("gates_passed_together", int(o.f[1]))
             elif m == "run":
                 # a run may legitimately fail (sticky settings of an earlier input); what is demanded is equality with the solo run
                 rep.count("runs")
@@ -295,7 +317,7 @@ def check_plan(ctx, plan):
         if crash_violation(rep, rb, "C06 repeat run of client %d (second process)" % ci):
             return rep
         shift = len(pre)
-        bo = [(o.idx - shift, norm_fields(o.f)) for o in rb.client(0) if o.idx >= shift and marks[o.idx - shift] is not None
+        bo = [(o.idx - shift, norm_fields(o.f)) for o in rb.client(0) if o.idx >= shift and marks[o.idx - shift] is not None and marks[o.idx - shift] != "gates"
               and not (isinstance(marks[o.idx - shift], tuple) and marks[o.idx - shift][0] == "create")]
         d = diff_obs(so, bo)
         rep.count("repeat_compared")
